@@ -131,13 +131,37 @@ def _check_C01_duplicates(case, R):
         U.check_figures("C01", nd, spec, _l2c(spec), cfg, report)
 
 
+def _check_C01_or(case, R):
+    """disable_or_statements=False (with and without allow_redundant_or): every figure on and under a disjunction;
+    a second, unrelated graph is run afterwards in the same process (state shared between statements/Shapers)."""
+    for which, nt in (("first", case["nt"]), ("second", case["nt2"])):
+        T = U.parse_nt(nt)
+        specs = _SpecCache(T)
+        for run in case["runs"]:
+            cfg, t = run["cfg"], run["t"]
+            try:
+                nd = R.run(nt, cfg, t)
+            except U.Skipped:
+                continue
+            spec = specs.get(cfg)
+
+            def report(key, what, obs, exp, run=run, which=which):
+                sub = "comment" if "[comment:" in what else "figure"
+                R.emit("C01:or-statements:%s-mismatch" % sub, "[%s graph; %s] %s" % (which, key, what),
+                       {"pid": "C01", "kind": "or", "nt": case["nt"], "nt2": case["nt2"], "runs": [run]}, observed=obs, expected=exp)
+            U.check_figures("C01", nd, spec, _l2c(spec), cfg, report, T=T)
+
+
 def check_C01(case, R):
+    if case.get("kind") == "or":
+        return _check_C01_or(case, R)
     if case.get("kind") == "rdflib":
         return _check_C01_rdflib(case, R)
     if case.get("kind") == "duplicates":
         return _check_C01_duplicates(case, R)
     nt = case["nt"]
-    specs = _SpecCache(U.parse_nt(nt))
+    T_all = U.parse_nt(nt)
+    specs = _SpecCache(T_all)
     runs = case.get("runs")
     if runs is None:                                   # compact form: product of the listed dimensions
         runs = [{"cfg": _merge(_mode_cfg(mode), {"inverse_paths": True} if inv else {}, sw), "t": t}
@@ -152,7 +176,7 @@ def check_C01(case, R):
 
         def report(key, what, obs, exp, run=run):
             R.emit(key, what, {"pid": "C01", "nt": nt, "runs": [run]}, observed=obs, expected=exp)
-        U.check_figures("C01", nd, spec, _l2c(spec), cfg, report)
+        U.check_figures("C01", nd, spec, _l2c(spec), cfg, report, T=T_all)
 
 
 def _thresholds(case, spec):
@@ -249,11 +273,38 @@ def check_target_spelling(case, R):
     U.check_keys(tag, live, spec, l2c, t, emit, check_shapes=False)
 
 
+def check_threshold_walk(case, R):
+    """One Shaper asked at a sequence of thresholds (low, high enough to empty a shape, low again ...): every
+    answer must equal the answer of a fresh Shaper at that threshold."""
+    e = U.env()
+    pid, nt, cfg, ths = case["pid"], case["nt"], case["cfg"], case["thresholds"]
+    try:
+        devs, calls = U.run_threshold_walk(nt, cfg, ths)
+    except U.WallClockTimeout:
+        R.crashes["timeout"] += 1
+        return
+    except Exception as exc:
+        R.crashes[e.V.crash_signature(exc)] += 1
+        return
+    R.evaluations += calls
+    R.nontrivial.add(U.digest(nt, cfg, repr(ths)))
+    for (i, t, category, detail) in devs:
+        R.emit("%s:call-history:threshold-walk:%s" % (pid, category if category.startswith("crash") else "differs"),
+               "one Shaper asked at thresholds %r: call %d (t=%r) %s" % (ths[:i + 1], i + 1, t, detail),
+               dict((k, v) for k, v in dict(case, thresholds=ths[:i + 1]).items() if k != "origin"),
+               observed=detail, expected="the answer of a fresh Shaper")
+        break
+
+
 def check_C02(case, R):
     if case.get("kind") == "float-boundary":
         return check_float_boundary(case, R)
     if case.get("kind") == "target-spelling":
         return check_target_spelling(case, R)
+    if case.get("kind") == "shapemap":
+        return check_C10(case, R)
+    if case.get("kind") == "threshold-walk":
+        return check_threshold_walk(case, R)
     nt = case["nt"]
     specs = _SpecCache(U.parse_nt(nt))
     for cfg in case["cfgs"]:
@@ -468,7 +519,12 @@ def check_C13(case, R):
                             if rt is None or count is None:
                                 continue
                             ok, want = U.rounded_ok(rt, count, sh["N"], places)
-                            if not ok:
+                            digits = len(rt.split(".")[1]) if "." in rt else 0
+                            if not ok and digits != places:
+                                emit("C13:decimals-format:%d:%s" % (places, cb.get("instances_report_mode", "mixed")),
+                                     "decimals=%d (instances_report_mode=%s) prints %s %% with %d decimal place(s) [%s]"
+                                     % (places, cb.get("instances_report_mode", "mixed"), rt, digits, raw.strip()), rt, want)
+                            elif not ok:
                                 emit("C13:decimals-rounding:%d" % places,
                                      "decimals=%d prints %s %% for %d of %d instances; exact ratio rounded to %d places is %s [%s]"
                                      % (places, rt, count, sh["N"], places, " or ".join(want), raw.strip()), rt, want)
@@ -523,7 +579,66 @@ def _con_sig(c):
             tuple((k["value"], k["card"], k["rt"], k["count"]) for k in c["comments"]))
 
 
+def _check_C14_shacl(case, R):
+    """Direction of every constraint must be the same in ShExC ('^') and in SHACL (sh:inversePath)."""
+    e = U.env()
+    nt, cfg, t = case["nt"], _merge(case["cfg"], {"inverse_paths": True}), case["t"]
+    try:
+        nd = R.run(nt, cfg, t)
+    except U.Skipped:
+        return
+    try:
+        R.evaluations += 1
+        shacl = U.run_shacl_paths(nt, cfg, t)
+    except U.WallClockTimeout:
+        R.crashes["timeout"] += 1
+        return
+    except Exception as exc:
+        R.crashes["SHACL: " + e.V.crash_signature(exc)] += 1
+        return
+    shex = set((sh["label"], c["inv"], c["p"]) for sh in nd for c in sh["cons"])
+    if shex != shacl:
+        only_shex, only_shacl = sorted(shex - shacl), sorted(shacl - shex)
+        flipped = [x for x in only_shex if (x[0], not x[1], x[2]) in shacl]
+        R.emit("C14:shacl:direction-mismatch" if flipped else "C14:shacl:constraint-set-differs",
+               "ShExC and SHACL outputs of the same run disagree on (shape, incoming?, property): only in ShExC %r, only in SHACL %r"
+               % (only_shex[:4], only_shacl[:4]), dict((k, v) for k, v in case.items() if k != "origin"),
+               observed=only_shacl[:6], expected=only_shex[:6])
+
+
+def _check_C14_inverse_oracle(case, R):
+    """inverse_paths=True on instances without outgoing features (type triples ignored / node selectors that are never
+    subjects): the incoming features are compared with the oracle."""
+    M, S, G = U.lib()
+    nt, cfg, t = case["nt"], _merge(case["cfg"], {"inverse_paths": True}), case["t"]
+    T = U.parse_nt(nt)
+    items, ns = case.get("items"), case.get("ns")
+    run_cfg = cfg
+    if items:
+        run_cfg = _merge(cfg, {"shape_map_raw": "\n".join("%s@<%s>" % (_selector_text(it["sel"]), it["label"]) for it in items)})
+        spec, l2c, _, _ = _mixed_oracle(T, items, cfg, True, bool(cfg.get("all_classes_mode")))
+    else:
+        run_cfg = _merge(cfg, {"namespaces_to_ignore": ns})
+        full = U.spec_for(T, cfg)
+        inst = collections.OrderedDict((C, list(xs)) for C, xs in full.inst.items())
+        spec = U.spec_for_instances([tr for tr in T if not _is_direct_child(tr[1], ns)], inst, inverse=True, pi=full.pi)
+        l2c = _l2c(spec)
+    try:
+        nd = R.run(nt, run_cfg, t)
+    except U.Skipped:
+        return
+
+    def report(key, what, obs, exp):
+        R.emit(key, what, dict((k, v) for k, v in case.items() if k != "origin"), observed=obs, expected=exp)
+    U.check_figures("C14:incoming-only-instances", nd, spec, l2c, cfg, report, T=None)
+    U.check_keys("C14:incoming-only-instances", nd, spec, l2c, t, report)
+
+
 def check_C14(case, R):
+    if case.get("kind") == "shacl-direction":
+        return _check_C14_shacl(case, R)
+    if case.get("kind") == "inverse-oracle":
+        return _check_C14_inverse_oracle(case, R)
     M, S, G = U.lib()
     nt, cfg, t, relaxed = case["nt"], case["cfg"], case["t"], case.get("relaxed", False)
     T = U.parse_nt(nt)
@@ -783,11 +898,11 @@ def _selector_nodes(sel, T):
 
 def check_C10(case, R):
     M, S, G = U.lib()
-    nt, cfg, t, kind = case["nt"], case["cfg"], case["t"], case["kind"]
-    T = U.parse_nt(nt)
+    nt, cfg, t, kind = case.get("nt"), case["cfg"], case["t"], case["kind"]
+    T = U.parse_nt(nt) if nt is not None else None
 
     def emit(key, what, obs, exp):
-        R.emit(key, what, dict(case, pid="C10"), observed=obs, expected=exp)
+        R.emit(key, what, dict((k, v) for k, v in case.items() if k != "origin"), observed=obs, expected=exp)
 
     if kind == "forms":
         classes = case["classes"]
@@ -848,10 +963,26 @@ def check_C10(case, R):
             U.check_keys("C10:shaper-pair", nd, spec, l2c, t, pair)
         return
     # shape maps
-    items = case["items"]
+    fam = {"selector-prefix": "C10:selector-prefix", "union": "%s:shapemap-union" % case["pid"],
+           "json": "C10:shapemap-json"}.get(case.get("family"))
+    if kind == "selector-pair":
+        # two Shapers in ONE process: same selector text and namespaces, different graphs
+        for gi, ntx in enumerate(case["nts"]):
+            def pair(key, what, obs, exp, gi=gi):
+                emit(key, "[graph %d of the pair] %s" % (gi + 1, what), obs, exp)
+            _check_shapemap(ntx, U.parse_nt(ntx), cfg, t, case["items"], R, pair, "C10:selector-pair", False)
+        return
+    _check_shapemap(nt, T, cfg, t, case["items"], R, emit, fam, case.get("family") == "json")
+
+
+def _check_shapemap(nt, T, cfg, t, items, R, emit, fam, as_json):
+    M, S, G = U.lib()
     nsd = cfg.get("namespaces_dict")
-    fam = "C10:selector-prefix" if case.get("family") == "selector-prefix" else None
-    sm = "\n".join("%s@<%s>" % (_selector_text(it["sel"], nsd), it["label"]) for it in items)
+    if as_json:
+        sm = json.dumps([{"nodeSelector": _selector_text(it["sel"], nsd), "shapeLabel": "<%s>" % it["label"]} for it in items])
+        cfg = _merge(cfg, {"shape_map_format": "json"})
+    else:
+        sm = "\n".join("%s@<%s>" % (_selector_text(it["sel"], nsd), it["label"]) for it in items)
     try:
         nd0 = R.run(nt, _merge(cfg, {"shape_map_raw": sm}), 0)      # instance counts are read at t=0 (nothing filtered)
         nd = nd0 if t == 0 else R.run(nt, _merge(cfg, {"shape_map_raw": sm}), t)
@@ -876,10 +1007,9 @@ def check_C10(case, R):
             bad_count = True
             why = "duplicate-solutions" if sh["N"] == sols[lab] and sols[lab] > n else "other"
             emit("%s:count:%s" % (fam, form[lab]) if fam else "C10:shapemap-count:%s:%s" % (form[lab], why),
-                 "selector %s denotes %d node(s) %r but the shape reports %r instances%s"
-                 % (_selector_text([it for it in items if it["label"] == lab][0]["sel"], nsd), n,
-                    [M.node_to_nt(x) for x in inst[lab]][:6], sh["N"],
-                    " (= number of matching triples: a node matching k times is counted k times)" if why == "duplicate-solutions" else ""),
+                 "shape map %r: label %s denotes %d distinct node(s) %r but the shape reports %r instances%s"
+                 % (sm, lab, n, [M.node_to_nt(x) for x in inst[lab]][:6], sh["N"],
+                    " (= number of matching triples / selector hits: a node matching k times is counted k times)" if why == "duplicate-solutions" else ""),
                  sh["N"], n)
     if bad_count:
         return
@@ -1064,7 +1194,7 @@ def gen_cases(pid, tier, seed):
             mode = _mode_cfg(modes[gi % 3])
             inv = {"inverse_paths": True} if gi % 2 else {}
             t = (0, 0.5, 1.0 / 3)[gi % 3]
-            pres = [["disable_comments", False, True], ["decimals", -1, 0], ["decimals", -1, 2],
+            pres = [["disable_comments", False, True], ["decimals", -1, 0], ["decimals", -1, 2], ["decimals", 0, 1],
                     ["instances_report_mode", "mixed", "ratio"], ["instances_report_mode", "mixed", "abs"],
                     ["shapes_namespace", U.SHAPES_NS, U.ALT_SHAPES_NS], ["namespaces_dict", ns_full, ns_less]]
             cases.append({"pid": pid, "origin": origin, "nt": U.to_nt(T), "base": _merge(mode, inv, _switch_combo(rng, 0.3)),
@@ -1211,6 +1341,95 @@ def _extra_cases(pid, tier, rng, n_enum, n_rand):
                 continue
             runs = [{"cfg": _merge(_mode_cfg(m), {"inverse_paths": True} if inv else {}), "t": 0} for m in ("all", "A") for inv in (False, True)]
             out.append({"pid": pid, "kind": "duplicates", "dup_kind": dk, "origin": "duplicate-lines", "nt": U.to_nt(T2), "runs": runs})
+    if pid == "C01":
+        for gi in range(n_of(8)):                      # disjunctions: values conforming to >= 2 shapes, several such properties
+            def g():
+                return U.rand_graph(rng, n_nodes=rng.randint(4, 7), n_triples=rng.randint(8, 18), n_classes=3, n_props=3,
+                                    p_bnode=0.0, p_typed=0.9, max_types=3, p_literal=0.15, p_link_typed=0.9)
+            runs = []
+            for red in (False, True):
+                for mi, mode in enumerate(("all", "AB")):
+                    # inverse_paths stays off here: on the current tree a disjunction built for an incoming constraint is printed
+                    # without '^' (reported to the coordinator as an existing deviation, not turned into a key)
+                    runs.append({"cfg": _merge(_mode_cfg(mode), {"disable_or_statements": False}, {"allow_redundant_or": True} if red else {},
+                                               _switch_combo(rng, 0.2) if gi % 3 == 0 else {}),
+                                 "t": (0, 0.5)[(gi + mi) % 2]})
+            out.append({"pid": pid, "kind": "or", "origin": "or-statements", "nt": U.to_nt(g()), "nt2": U.to_nt(g()), "runs": runs})
+        for gi in range(n_of(8)):                      # IRI-only and blank-node-only instances, uniform cardinalities
+            T = U.nonliteral_uniform_graph(rng)
+            runs = [{"cfg": _merge(_mode_cfg(m), {"inverse_paths": True} if inv else {}, _switch_combo(rng, 0.3) if gi % 2 else {}), "t": t}
+                    for m in ("all", "A") for inv in (False, True) for t in (0, 1)]
+            out.append({"pid": pid, "origin": "nonliteral-uniform", "nt": U.to_nt(T), "runs": runs})
+    if pid in ("C02", "C10"):
+        for gi in range(n_of(10)):                     # two shape-map items giving ONE label to overlapping node sets
+            T = U.rand_graph(rng, n_nodes=rng.randint(3, 7), n_triples=rng.randint(5, 14), n_classes=2, n_props=rng.randint(2, 3), p_bnode=0.0)
+            props = U.dedup([p for (s, p, o) in T if p != M.RDF_TYPE]) or [G.PROP_P]
+            classes = U.dedup([o.iri for (s, p, o) in T if p == M.RDF_TYPE])
+            subjects = U.dedup([s.iri for (s, p, o) in T])
+            sels = [{"form": "focus-type", "cls": rng.choice(classes)}, {"form": "focus-subj", "p": rng.choice(props)},
+                    {"form": "node", "node": rng.choice(subjects)}]
+            if gi % 3 == 0:
+                sels.append({"form": "focus-subj", "p": rng.choice(props)})
+            fam = "json" if (pid == "C10" and gi % 2) else "union"
+            out.append({"pid": pid, "kind": "shapemap", "family": fam, "origin": "shapemap-" + fam, "nt": U.to_nt(T),
+                        "cfg": {"inverse_paths": True} if gi % 4 == 0 else {}, "t": (0, 0.5)[gi % 2],
+                        "items": [{"sel": sel, "label": U.ALT_SHAPES_NS + "S"} for sel in sels]})
+    if pid == "C02":
+        for gi in range(n_of(10)):                     # one Shaper walked through thresholds that empty and refill a shape
+            T = U.rand_graph(rng, n_nodes=rng.randint(4, 7), n_triples=rng.randint(6, 14), n_classes=2, n_props=3, p_bnode=0.0, p_typed=0.7)
+            subjects = U.dedup([s.iri for (s, p, o) in T])
+            classes = U.dedup([o.iri for (s, p, o) in T if p == M.RDF_TYPE])
+            picked = rng.sample(subjects, min(len(subjects), rng.randint(2, 3)))
+            sm = "\n".join(["<%s>@<%sS>" % (x, U.ALT_SHAPES_NS) for x in picked] + ["{FOCUS a <%s>}@<%sR>" % (rng.choice(classes), U.ALT_SHAPES_NS)])
+            cfg = {"shape_map_raw": sm} if gi % 3 else _merge(_mode_cfg("all"), {"shape_map_raw": sm})
+            if gi % 5 == 4:
+                cfg = _mode_cfg("AB")
+            out.append({"pid": pid, "kind": "threshold-walk", "origin": "threshold-walk", "nt": U.to_nt(T), "cfg": cfg,
+                        "thresholds": [0, 0.5, 1.0 / 3, 0, 1, 2.0 / 3, 0, 0.51, 1, 0]})
+    if pid == "C10":
+        for gi in range(n_of(10)):                     # same selector text and namespaces, two different graphs, one process
+            g1 = U.rand_graph(rng, n_nodes=rng.randint(3, 6), n_triples=rng.randint(5, 12), n_classes=2, n_props=2, p_bnode=0.0)
+            g2 = U.rand_graph(rng, n_nodes=rng.randint(3, 6), n_triples=rng.randint(5, 12), n_classes=2, n_props=2, p_bnode=0.0)
+            sel = ({"form": "focus-type", "cls": G.CLASS_A}, {"form": "focus-subj", "p": G.EX + "p0"}, {"form": "sparql-type", "cls": G.CLASS_B})[gi % 3]
+            out.append({"pid": pid, "kind": "selector-pair", "origin": "selector-pair", "nts": [U.to_nt(g1), U.to_nt(g2)],
+                        "cfg": {"inverse_paths": True} if gi % 4 == 0 else {}, "t": 0, "items": [{"sel": sel, "label": U.ALT_SHAPES_NS + "L1"}]})
+    if pid == "C14":
+        for gi in range(n_of(8)):                      # one property arriving from IRI and from blank-node subjects
+            n = rng.randint(2, 5)
+            inst = [M.IRI(G.EX + "i%d" % i) for i in range(n)]
+            T = [M.Triple(x, M.RDF_TYPE, M.IRI(G.CLASS_A)) for x in inst]
+            for i, x in enumerate(inst):
+                if i % 2 == 0 or rng.random() < 0.3:
+                    T.append(M.Triple(M.BNode("w%d" % i), G.EX + "inc", x))
+                if i % 2 == 1 or rng.random() < 0.3:
+                    T.append(M.Triple(M.IRI(G.OTHER + "s%d" % i), G.EX + "inc", x))
+                if rng.random() < 0.6:
+                    T.append(M.Triple(x, G.PROP_P, rng.choice([M.Lit("x"), M.BNode("v%d" % i), M.IRI(G.OTHER + "t%d" % i)])))
+                if rng.random() < 0.4:
+                    T.append(M.Triple(rng.choice(inst), G.PROP_Q, x))
+            if gi % 3 == 0:
+                T.append(M.Triple(M.IRI(G.OTHER + "s0"), M.RDF_TYPE, M.IRI(G.CLASS_B)))
+            T = U.dedup(T)
+            rng.shuffle(T)
+            for t in (0, 0.5):
+                out.append({"pid": pid, "kind": "shacl-direction", "origin": "shacl-direction", "nt": U.to_nt(T),
+                            "cfg": _merge(_mode_cfg(("all", "A")[gi % 2]), _switch_combo(rng, 0.2) if gi % 3 == 1 else {}), "t": t})
+        for gi in range(n_of(8)):                      # instances without outgoing features but with incoming links
+            T = U.rand_graph(rng, n_nodes=rng.randint(4, 7), n_triples=rng.randint(6, 14), n_classes=2, n_props=3, p_bnode=0.0, p_typed=0.6)
+            quiet = [M.IRI(G.EX + "quiet%d" % i) for i in range(rng.randint(1, 2))]
+            srcs = U.dedup([s for (s, p, o) in T])
+            for q in quiet:
+                T.append(M.Triple(q, M.RDF_TYPE, M.IRI(rng.choice([G.CLASS_A, G.CLASS_B]))))
+                for _ in range(rng.randint(1, 3)):
+                    T.append(M.Triple(rng.choice(srcs), rng.choice([G.EX + "p0", G.OTHER + "p1"]), q))
+            T = U.dedup(T)
+            rng.shuffle(T)
+            out.append({"pid": pid, "kind": "inverse-oracle", "origin": "incoming-only", "nt": U.to_nt(T), "ns": [M.RDF],
+                        "cfg": _mode_cfg(("all", "AB")[gi % 2]), "t": (0, 0.5)[gi % 2]})
+            objs = U.dedup([o.iri for (s, p, o) in T if isinstance(o, M.IRI) and p != M.RDF_TYPE and o not in srcs]) or [quiet[0].iri]
+            out.append({"pid": pid, "kind": "inverse-oracle", "origin": "incoming-only", "nt": U.to_nt(T), "cfg": {}, "t": 0,
+                        "items": [{"sel": {"form": "node", "node": rng.choice(objs)}, "label": U.ALT_SHAPES_NS + "L1"},
+                                  {"sel": {"form": "node", "node": quiet[0].iri}, "label": U.ALT_SHAPES_NS + "L1"}]})
     if pid in ("C02", "C10"):
         for gi in range(n_of(8)):                      # target classes in three spellings, one without instances
             T = U.rand_graph(rng, n_nodes=rng.randint(3, 7), n_triples=rng.randint(4, 14), n_classes=2, n_props=rng.randint(2, 3),
@@ -1352,16 +1571,24 @@ RULES = {
 
 EXTRA_RULES = {
     "C01": "; input through rdflib (own Turtle rendering / rdflib_graph=) on graphs with same-text-different-kind objects; N-Triples "
-           "texts with repeated lines (figures of the de-duplicated graph, no count above the instance count)",
+           "texts with repeated lines (selftest only); disjunctions (disable_or_statements=False, with/without allow_redundant_or, inverse "
+           "off) incl. their comments and a second unrelated graph in the same process; NONLITERAL-merged figures checked exactly when "
+           "no instance mixes IRI and blank-node values and each kind has one uniform cardinality",
     "C02": "; target classes spelled full/<bracketed>/prefixed with remove_empty_shapes=False and an instance-less class (exactly one "
-           "shape per requested class); multi-typed instances with a partially shared extra class under the direct strategy",
+           "shape per requested class); multi-typed instances with a partially shared extra class under the direct strategy; shape maps "
+           "giving one label to overlapping node sets (count = union); one Shaper walked through thresholds 0,.5,1/3,0,1,2/3,0,.51,1,0 "
+           "against fresh Shapers",
     "C12": "; at t=0 and t=1 the printed keys equal the oracle's (nothing omitted / only features of all instances)",
     "C09": "; blank-node relabelings use labels with '.', '-' and digits",
     "C10": "; target-spelling family as in C02; two Shapers in one process with one prefix bound to two namespaces; selectors with "
-           "prefixes that are initial segments of one another (wd/wdt, rdf/rdfs, empty prefix first)",
-    "C13": "; namespaces that do not end in '/' or '#' (OBO style) compared after expansion with each output's own PREFIX table",
+           "prefixes that are initial segments of one another (wd/wdt, rdf/rdfs, empty prefix first); same-label items in fixed and "
+           "JSON shape maps; two Shapers with the same selector text on different graphs",
+    "C13": "; namespaces that do not end in '/' or '#' (OBO style) compared after expansion with each output's own PREFIX table; decimals 0/1/2 in mixed mode: number of printed decimal "
+           "places (key decimals-format) separated from the rounding value (key decimals-rounding)",
     "C14": "; shape maps selecting heterogeneous nodes at thresholds that empty a shape (relation on the surviving shapes, constraints "
-           "referring to a vanished shape excluded)",
+           "referring to a vanished shape excluded); ShExC '^' vs SHACL sh:inversePath per (shape, property) on graphs where one "
+           "property arrives from IRI and blank-node subjects; instances without outgoing features (rdf namespace ignored / node "
+           "selectors that are never subjects) against the oracle of incoming features",
     "C16": "; ignored namespaces that contain the instantiation property (membership from the full graph); graph_list_of_files_input "
            "in non-lexicographic order with instances_cap == the concatenated document",
 }
@@ -1800,6 +2027,121 @@ def _mutants():
                             sts.append(Statement(st_property=pk, st_type=tk, cardinality=card, probability=fr, n_occurences=occ))
             yield Shape(name=name, class_uri=ck, statements=sts, n_instances=int(n))
 
+    # ---- third round ------------------------------------------------------------------------------
+    import shexer.model.fixed_prop_choice_statement as fpcs
+    import shexer.core.instances.mappings.shape_map_instance_tracker as smit
+    import shexer.core.shexing.class_shexer as cshex
+    import shexer.io.shape_map.shape_map_parser as smp
+    import shexer.model.node_selector as nsel
+    import shexer.io.shex.formater.statement_serializers.frequency_strategy.mixed_frequency_strategy as mfs
+    from shexer.model.shape_map import ShapeMap, ShapeMapItem
+    from shexer.io.json.json_loader import load_string_json
+
+    def patch_shared_or_comments():
+        shared = []
+        old_init = fpcs.FixedPropChoiceStatement.__init__
+
+        def init(self, st_property, st_types, cardinality, n_occurences, probability, comments=None, serializer_object=None,
+                 is_inverse=False):
+            old_init(self, st_property, st_types, cardinality, n_occurences, probability,
+                     comments=shared if comments is None else comments, serializer_object=serializer_object, is_inverse=is_inverse)
+        fpcs.FixedPropChoiceStatement.__init__ = init
+        return lambda: setattr(fpcs.FixedPropChoiceStatement, "__init__", old_init)
+
+    def most_general_max(self, a_card1, a_card2):
+        if "+" in (a_card1, a_card2):
+            return "+"
+        return max(a_card1, a_card2) if a_card1 != a_card2 else a_card1
+
+    def solve_targets_seen_per_item(self, an_item):
+        seen = set()
+        for a_node in an_item.node_selector.get_target_nodes():
+            if a_node in seen:
+                continue
+            seen.add(a_node)
+            if a_node not in self._instances_dict:
+                self._instances_dict[a_node] = []
+            self._instances_dict[a_node].append(an_item.shape_label)
+
+    def remove_shapes_and_profile(self, shape_names_to_remove):
+        new_shape_list = []
+        for a_shape in self._shapes_list:
+            if a_shape.name not in shape_names_to_remove:
+                new_shape_list.append(a_shape)
+            else:
+                self._class_profile_dict.pop(a_shape.class_uri, None)
+        self._shapes_list = new_shape_list
+
+    def json_one_selector_per_label(self, raw_content):
+        by_label = {}
+        for a_list_elem in load_string_json(raw_content):
+            by_label[a_list_elem["shapeLabel"]] = a_list_elem["nodeSelector"]
+        result = ShapeMap()
+        for label, selector in by_label.items():
+            result.add_item(ShapeMapItem(node_selector=self._node_selector_parser.parse_node_selector(selector),
+                                         shape_label=self._label_parser.parse_shape_map_label(label)))
+        return result
+
+    memo_selector_answers = {}
+
+    def sparql_targets_memo(self):
+        k = self._sparql_query_selector
+        if k not in memo_selector_answers:
+            memo_selector_answers[k] = self._solve_target_nodes_at_endpoint()
+        return memo_selector_answers[k]
+
+    def patch_mixed_decimals():
+        old_init = mfs.MixedFrequencyStrategy.__init__
+
+        def init(self, decimals=-1):
+            old_init(self, decimals or -1)
+        mfs.MixedFrequencyStrategy.__init__ = init
+        return lambda: setattr(mfs.MixedFrequencyStrategy, "__init__", old_init)
+
+    def bnode_merging_without_inverse(self):
+        if self.has_iri_constraint:
+            if len(self._shape_constraints or []) == 1 and self._iri_constraint.n_occurences + self._bnode_constraint.n_occurences \
+                    == self._shape_constraints[0].n_occurences:
+                self._promote_to_dominant(self._shape_constraints[0])
+            else:
+                self._add_dominant(Statement(st_property=self._bnode_constraint.st_property, st_type="NONLITERAL",
+                                             n_occurences=self._bnode_constraint.n_occurences + self._iri_constraint.n_occurences,
+                                             probability=self._bnode_constraint.probability + self._iri_constraint.probability,
+                                             cardinality=self._most_general_cardinality(self._bnode_constraint.cardinality,
+                                                                                        self._iri_constraint.cardinality),
+                                             serializer_object=self._statement_serializer_factory.get_base_serializer(
+                                                 is_inverse=self._bnode_constraint.is_inverse)))
+        elif len(self._shape_constraints or []) != 0 and self._shape_constraints[0].n_occurences == self._bnode_constraint.n_occurences:
+            self._promote_to_dominant(self._shape_constraints[0])
+        else:
+            self._promote_to_dominant(self._bnode_constraint)
+
+    def build_class_profile_skipping(self):
+        for an_instance in self._instances_dict:
+            if len(self._instances_dict[an_instance][1]) == 0:
+                continue
+            self._strategy.annotate_instance_features(an_instance)
+
+    round3 = [
+        ("C01", "[3.1] FixedPropChoiceStatement: every disjunction shares ONE comments list",
+         patch_shared_or_comments),
+        ("C01", "[3.2] _most_general_cardinality returns max(card1, card2) instead of '+' when the two differ",
+         setattr_patch(ass.MergeableConstraints, "_most_general_cardinality", most_general_max)),
+        ("C02", "[3.3] _solve_targets_of_an_item de-duplicates per item only (two items, one label: node counted twice)",
+         setattr_patch(smit.ShapeMapInstanceTracker, "_solve_targets_of_an_item", solve_targets_seen_per_item)),
+        ("C02", "[3.4] _remove_shapes_without_statements also deletes the class from the shared profile dict",
+         setattr_patch(cshex.ClassShexer, "_remove_shapes_without_statements", remove_shapes_and_profile)),
+        ("C10", "[3.5a] JSON shape map parser keeps one selector per label",
+         setattr_patch(smp.JsonShapeMapParser, "_parse_shape_map_from_str", json_one_selector_per_label)),
+        ("C10", "[3.5b] class-level memo of selector answers in NodeSelectorSparql keyed by the query text",
+         setattr_patch(nsel.NodeSelectorSparql, "get_target_nodes", sparql_targets_memo)),
+        ("C13", "[3.6] MixedFrequencyStrategy passes 'decimals or -1' (decimals=0 prints unbounded decimals)", patch_mixed_decimals),
+        ("C14", "[3.7a] _bnode_merging_strategy drops is_inverse= on the merged NONLITERAL statement",
+         setattr_patch(ass.MergeableConstraints, "_bnode_merging_strategy", bnode_merging_without_inverse)),
+        ("C14", "[3.7b] ClassProfiler._build_class_profile skips instances without outgoing features",
+         setattr_patch(cp.ClassProfiler, "_build_class_profile", build_class_profile_skipping)),
+    ]
+
     round2 = [
         ("C02", "(1) ShexSerializer._serialize_shape_rules pops a statement off the cached Shape objects",
          setattr_patch(shex_ser.ShexSerializer, "_serialize_shape_rules", rules_popping)),
@@ -1828,7 +2170,7 @@ def _mutants():
          setattr_patch(dss.DirectShexingStrategy, "_yield_base_shapes_direction_aware", yield_base_keep_rdf_type)),
     ]
 
-    return round2 + [
+    return round3 + round2 + [
         ("C10", "MixedInstanceTracker._integrate_dicts overwrites the labels the shape map gave a node",
          setattr_patch(mit.MixedInstanceTracker, "_integrate_dicts", integrate_overwrite)),
         ("C14", "_is_relevant_instance without IRI/BNode type check, _annotate_target_object keyed by str(): literals count as links",
